@@ -12,7 +12,7 @@ def notifications(b):
     out = []
     for c in b.calls():
         nm = c.name()
-        if nm == "send" and "mpsc::Sender" in (c.pretty or ""):
+        if nm == "send" and ("mpsc::Sender" in (c.pretty or "") or "mpsc::SyncSender" in (c.pretty or "")):
             out.append(("send", c))
         elif nm in ("call_mut", "call", "call_once") and (c.trait or "").startswith("core::ops::function::Fn"):
             # the registered callback: receiver comes from the call_back field
